@@ -82,7 +82,10 @@ impl DataType {
         }; // a <= b
         match (a, b) {
             (Null, _) => Some(b.clone()),
-            (Bool, Bool | Int32 | Int64 | Float64 | Decimal(_, _) | String) => Some(b.clone()),
+            (Bool, Bool | Int16 | Int32 | Int64 | Float64 | Decimal(_, _) | String) => {
+                Some(b.clone())
+            }
+            (Int16, Int16 | Int32 | Int64 | Float64 | Decimal(_, _) | String) => Some(b.clone()),
             (Int32, Int32 | Int64 | Float64 | Decimal(_, _) | String) => Some(b.clone()),
             (Int64, Int64 | Float64 | Decimal(_, _) | String) => Some(b.clone()),
             (Float64, Float64 | Decimal(_, _) | String) => Some(b.clone()),
